@@ -1,4 +1,70 @@
-(* placeholder until the proofs are integrated *)
-From LLTD Require Import BufProofs.
-Theorem C02_placeholder : True. Proof. exact I. Qed.
-Print Assumptions C02_placeholder.
+(* C02: every transmitted frame passes the independent validator wf_tx; solicited only; junk independent; link to the buffer-level model.
+   Statements only: each theorem restates the full type of a lemma proved in coq/proofs and is closed by
+   `exact`; Print Assumptions beneath.  Regenerate with bin/genprops.py after a lemma changes. *)
+From LLTD Require Import BlockFun BlockNominal SpecTx TxProofs.
+
+Theorem C02_every_frame_well_formed :
+  forall (ctx : N) (c : pcfg) (g : gcfg) (mtu : N),
+  (206 <= mtu)%N ->
+  (mtu < 16418)%N ->
+  forall (s : ist) (buf : list N),
+  Forall
+  (fun a : action =>
+  match a with
+  | Send _ _ fr => wf_tx (mac_bytes (own c)) (o mtu) fr = true
+  | _ => True
+  end) (snd (f_step ctx c g mtu s buf)).
+Proof. exact C02_wf_step. Qed.
+Print Assumptions C02_every_frame_well_formed.
+
+Theorem C02_only_solicited_and_bounded :
+  forall (ctx : N) (c : pcfg) (g : gcfg) (mtu : N) (s : ist) (buf : list N),
+  snd (f_step ctx c g mtu s buf) <> [] ->
+  exists h : hdr,
+  parse_hdr buf = Some h /\
+  In (h_tos h, h_opc h) [(0%N, 0%N); (1%N, 0%N); (0%N, 2%N); (0%N, 6%N); (0%N, 11%N); (1%N, 11%N)] /\
+  sends (snd (f_step ctx c g mtu s buf)) <=
+  (if (h_tos h =? 0)%N && (h_opc h =? 2)%N then o (h_w0 h) + 1 else 1).
+Proof. exact C02_solicited. Qed.
+Print Assumptions C02_only_solicited_and_bounded.
+
+Theorem C02_hello_property_list_well_formed :
+  forall (c : pcfg) (g : gcfg), wf_hello_props (concat (hello_tlvs c g)) = true.
+Proof. exact wf_hello. Qed.
+Print Assumptions C02_hello_property_list_well_formed.
+
+Theorem C02_no_uninitialised_byte :
+  forall (j1 j2 ctx : N) (c : pcfg) (g : gcfg) (mtu : N) (s : ist) (buf : list N)
+  (w : world) (bl : nat) (bb : N),
+  c_mtu c = Some mtu ->
+  (576 <= mtu)%N ->
+  (mtu <= 9216)%N ->
+  (mtu <= c_rxsize c)%N ->
+  length buf = o (c_rxsize c) ->
+  ledger_frame bl bb s w ->
+  match parse_frame_st no_fail no_fail j1 ctx c g s buf w with
+  | Ok s1 w1 =>
+  match parse_frame_st no_fail no_fail j2 ctx c g s buf w with
+  | Ok s2 w2 => s1 = s2 /\ w_trace w1 = w_trace w2
+  | Fault _ => False
+  end
+  | Fault _ => False
+  end.
+Proof. exact junk_independent. Qed.
+Print Assumptions C02_no_uninitialised_byte.
+
+Theorem C02_buffer_level_model_refines :
+  forall (junk ctx : N) (c : pcfg) (g : gcfg) (mtu : N),
+  c_mtu c = Some mtu ->
+  (576 <= mtu)%N ->
+  (mtu <= 9216)%N ->
+  (mtu <= c_rxsize c)%N ->
+  forall (s : ist) (buf : list N) (w : world) (bl : nat) (bb : N),
+  length buf = o (c_rxsize c) ->
+  ledger_frame bl bb s w ->
+  exists w' : world,
+  parse_frame_st no_fail no_fail junk ctx c g s buf w = Ok (fst (f_step ctx c g mtu s buf)) w' /\
+  w_trace w' = rev (snd (f_step ctx c g mtu s buf)) ++ w_trace w /\
+  ledger_frame bl bb (fst (f_step ctx c g mtu s buf)) w' /\ w_now w' = w_now w.
+Proof. exact step_nominal. Qed.
+Print Assumptions C02_buffer_level_model_refines.
